@@ -281,7 +281,7 @@ func (g *gnet) checkEmission(n *gnode, msg *gpbft.GMessage) {
 						pw += sp
 					}
 				}
-				if gpbft.IsStrongQuorum(pw, g.pt.ScaledTotal) {
+				if indepStrong(pw, g.pt.ScaledTotal) {
 					want = pre
 					break
 				}
@@ -574,7 +574,7 @@ func (g *gnet) checkDecisionProof(n *gnode, d *gpbft.Justification) {
 		mask = append(mask, int(b))
 		return nil
 	})
-	if !gpbft.IsStrongQuorum(pw, g.pt.ScaledTotal) {
+	if !indepStrong(pw, g.pt.ScaledTotal) {
 		bad("no-strong-quorum")
 	}
 	agg, _ := g.backend.Aggregate(g.pt.Entries.PublicKeys())
